@@ -206,13 +206,18 @@ def closed (f : Func) (S : State) (E : List Edge) (R : Array Bool) : Bool :=
 def defLoc (f : Func) (v : Nat) : Nat :=
   (f.instrs.findIdx? (fun y => y.res == v)).getD 0
 
-/-- every data operand of a reachable value-computing instruction, and every boundary value of a
-reachable target, is defined at an instruction from which the use is reachable in the CFG
-(holds for x/tools SSA: definitions dominate uses; a phi's operand reaches it through the predecessor). -/
+/-- SSA sanity (decidable, evaluated per function by the oracle: `ssa=1`):
+  * every origin is defined where it is attached, every reachable value-computing instruction is the
+    (first) definition of its result;
+  * every data operand of a reachable value-computing instruction, and every boundary value of a
+    reachable target, is defined at an instruction from which the use is reachable in the CFG
+    (x/tools SSA: definitions dominate uses; a phi's operand reaches it through the predecessor). -/
 def ssaOK (f : Func) (R : Array Bool) : Bool :=
+  (f.origins.all fun o => defLoc f o.val == o.loc) &&
   ((List.range f.instrs.size).all fun i =>
-    !R.getD i false || (dataOps (f.instrs.getD i default)).all fun a =>
-      (reachFrom f (defLoc f a)).getD i false) &&
+    !R.getD i false ||
+      (((f.instrs.getD i default).res == 0 || defLoc f (f.instrs.getD i default).res == i) &&
+       (dataOps (f.instrs.getD i default)).all fun a => (reachFrom f (defLoc f a)).getD i false)) &&
   f.targets.all fun t => !R.getD t.loc false || (reachFrom f (defLoc f t.val)).getD t.loc false
 
 end Argot.Intra
